@@ -21,7 +21,7 @@ def streams(ctx):
         if rng.random() < (0.25 if ctx.quick else 0.5):
             nearly.append((strings.mutate(rng, s), None))
     out += nearly
-    out += [(s, None) for s in strings.MALFORMED]
+    out += [(s, None) for s in strings.MALFORMED + strings.MALFORMED_META]
     for _ in range(300 if ctx.quick else 5000):
         out.append((strings.garbage(rng, rng.randint(1, 14)), None))
     return out
@@ -89,6 +89,9 @@ def run(ctx):
         ahb.append(s)
     ahb += ["Muss [1] U", "Muss[1]U", "Soll ([1]", "Kann [1] [", "X [1]O", "Mus[2]", "MU[1]", "MUU[1]", "Muss[2]C[3]", "Muſſ[1]", "K[1]", "", " ", "Muss", " Muss[1]",
             "Muss[1] ", "Muss [1]\x0bSoll[2]", "Muss[1]Soll", "Muss[1]X", "X", "x", "XX", "Muss[1P]", "Muss[UB1]", "Muss[1P0..1]", "Muss [1] Soll [2] Kann"]
+    ahb += strings.MALFORMED_META
+    for _ in range(100 if ctx.quick else 1500):
+        ahb.append(rng.choice(INDICATORS) + " " + strings.garbage(rng, rng.randint(1, 8)))
     ahb += pool[:: max(1, len(pool) // (300 if ctx.quick else 3000))]
     n_ahb = 0
     ahb_terms, res_terms = [], []
